@@ -260,3 +260,68 @@ def r_anchor(P, chk):
         chk.obligation(rid, "%s iterates scratch->%s (the stack that assigns the numbers)" % (fn, stackname), okp)
         if not okp:
             chk.violation(rid, "anchor:list:%s" % fn, f.where(), "%s does not iterate scratch->%s" % (fn, stackname))
+
+
+def r_anchor_seed(P, chk):
+    """The random renaming is a function of the plain ordinal: what is added to random_seed_base is never itself a
+    renamed number (a second application gives an id that matches nothing)."""
+    rid = "R-ANCHOR"
+    n = 0
+    for f in P.all_funcs:
+        if not P.first_party(f) or f.unit.base not in ("html.c", "epub.c"):
+            continue
+        for c in f.calls("srand"):
+            arg = strip(c["c"][1])
+            if arg is None:
+                continue
+            leaves = [x for x in walk(arg) if x["k"] in ("DeclRefExpr", "MemberExpr") and const_value(x) is None]
+            # operands other than the seed base
+            ops = []
+            for x in leaves:
+                k = key(x)
+                if k.endswith("random_seed_base") or "random_seed_base" in k:
+                    continue
+                if x["k"] == "DeclRefExpr" and any(y["k"] == "MemberExpr" and strip(y["c"][0]) is x for y in walk(arg)):
+                    continue        # the base object of a member expression
+                ops.append(x)
+            for x in ops:
+                n += 1
+                bad = None
+                if x["k"] == "DeclRefExpr" and x.get("dk") == "Var":
+                    # a local: follow its reaching definitions; a copy of a field is judged by the stores into that field
+                    srcs = []
+                    for d in _reaching_defs(f, x["n"], c):
+                        rhs = d["c"][1] if d["k"] == "BinaryOperator" else (d["c"][0] if d.get("c") else None)
+                        if rhs is not None:
+                            srcs.append((rhs, d if "i" in d else c))
+                    for rhs, at in srcs:
+                        r = strip(rhs)
+                        if _is_random(f, rhs, at):
+                            bad = "local %s is already a renamed number" % x["n"]
+                        elif r is not None and r["k"] == "MemberExpr":
+                            b2 = _field_random(P, r)
+                            if b2:
+                                bad = b2
+                elif x["k"] == "MemberExpr":
+                    bad = _field_random(P, x)
+                chk.obligation(rid, "%s %s: srand(seed base + %s) is applied to a plain ordinal" % (f.where(c), f.name, key(x)), ok=bad is None)
+                if bad:
+                    chk.violation(rid, "anchor:seed:%s:%s" % (f.name, key(x)), f.where(c),
+                                  "the random anchor renaming in %s is applied to %s: %s - the id printed here cannot match the one "
+                                  "printed where the renaming is applied once" % (f.name, key(x), bad))
+    chk.floor(rid, n, 3, "operands of the random anchor renaming")
+
+
+def _field_random(P, m):
+    """Does some store into field m (same record type and field name) store a rand()-renamed number?"""
+    rec, fld = m.get("rec"), m["n"]
+    for g in P.all_funcs:
+        if not P.first_party(g):
+            continue
+        for y in g.walk():
+            if y["k"] == "BinaryOperator" and y["op"] == "=":
+                l = strip(y["c"][0])
+                if l is not None and l["k"] == "MemberExpr" and l["n"] == fld and l.get("rec") == rec:
+                    if _is_random(g, y["c"][1], y):
+                        return "%s stores an already renamed number into %s (%s)" % (g.name, fld, g.where(y))
+    return None
